@@ -169,7 +169,8 @@ def register(reg):
         requires=[WF_DB, "'Q' in self.data_dict",
                   "forall(STR, lambda k: implies(k in self.data_dict and k != 'Q', self.data_dict[k] != 0))",
                   "implies(self.select == 'all', len(self.all_solutions) == 0)"],
-        ensures=["forall(range(0, len(result)), lambda i: " + GOOD.format(p="result[i]") + ")"],
+        ensures=["forall(range(0, len(result)), lambda i: " + GOOD.format(p="result[i]") + ")",
+                 "self.rule_dict is old(self.rule_dict) and self.data_dict is old(self.data_dict)"],
         modifies=["self", "old(self.all_solutions)"],
         props=["C08"])
 
@@ -183,6 +184,7 @@ def register(reg):
             "'Q' in self.data_dict and forall(STR, lambda k: implies(k in self.data_dict and k != 'Q', self.data_dict[k] != 0))",
             "len(self.rule_dict) == len(rule_dict) and forall(range(0, len(self.rule_dict)), lambda j: in_list(self.rule_dict[j], rule_dict))",
             "self.select == select and implies(select == 'all', len(self.all_solutions) == 0)",
+            "fresh(self.rule_dict) and fresh(self.data_dict) and implies(select == 'all', fresh(self.all_solutions))",
         ],
         modifies=["self", "data_dict"],
         props=["C08"])
